@@ -241,7 +241,7 @@ impl Property for C06 {
         vec!["with dyadic data an exactly empty closed region is empty by a margin >> 1e-8; a survivor that is exactly empty but not by the relaxed margin is counted as thin_survivor, not judged".into(), "the unpruned twin uses compose<false> (decided separately by C02)".into()]
     }
     fn cases(&self, tier: Tier) -> usize {
-        tier.pick(1200, 30_000)
+        tier.pick(3000, 30_000)
     }
     fn strategy(&self, tier: Tier) -> BoxedStrategy<History> {
         let max_ops = tier.pick(6, 10);
